@@ -9,6 +9,7 @@ Line protocol (harness/json.cpp and lean driver drv_json; one op per line -> one
   tostr <dump>  ->  <hex of Json::toString(v)>   (tostr only: also u<dec> uint, U<dec> uint64, <V,...> Array<Variant>)
   tostr D<hex>  ->  dbl                            (double made from the number text; "%f" shape of the output observed)
   rt <dump>     ->  ok <dump of parse(toString(v))> <1|0> | err <line> <col>
+  parseinto <dump> <hex> -> ok <dump> | err <line> <col>   (Parser::parse into a Variant that already holds <dump>)
   anything else / malformed dump -> bad-op
 dump grammar:  V ::= n | t | f | d | i<dec> | l<dec> | s<hex> | [V,...] | {<hexkey>:V,...}   (hex "-" = empty)
 """
@@ -451,6 +452,8 @@ def ref_tostr(v):
 # (n_k = length of line k of the text) | "!<why>" a claim about the implementation's output already failed
 def ref_line(line, impl):
     t = line.split()
+    if len(t) == 3 and t[0] == "parseinto":
+        return ref_parseinto(t[1], t[2])
     if len(t) != 2 or t[0] not in ("parse", "strip", "tostr", "rt"):
         return "=bad-op"
     op, arg = t
@@ -494,6 +497,29 @@ def ref_line(line, impl):
                 return "!toString output is not the JSON text of the value (python json.loads gives " + \
                        (dump(back) if back is not None else "an error") + "); expected " + hx(exp)
     return "=" + hx(exp)
+
+
+def ref_parseinto(d, h):
+    """parse into a Variant that already holds the tree `d`: a list / map keeps its items and gets the parsed ones appended
+    (HashMap::append: a repeated name keeps its place and takes the new value), anything else is replaced"""
+    try:
+        init = parse_dump(d, allow_d=False)
+    except DumpError as e:
+        return "=bad-op" if e.args[0] == "range" else "*"
+    if not _HEXTOK.fullmatch(h):
+        return "*"
+    text = unhx(h).split(b"\0")[0]
+    t = py_parse(text)
+    if t is None:
+        return "pos " + ",".join(str(n) for n in line_lengths(text))
+    if t[0] == "[" and init[0] == "[":
+        t = ("[", init[1] + t[1])
+    elif t[0] == "{" and init[0] == "{":
+        m = dict(init[1])
+        for k, v in t[1]:
+            m[k] = v
+        t = ("{", list(m.items()))
+    return "=ok " + dump(t)
 
 
 def reference(hist, impl_out):
@@ -950,6 +976,21 @@ def histories_for(ctx):
     lines += ["tostr D" + hx(t) for t in DOUBLE_TEXTS]
     lines += ["tostr D" + hx(("%s%d.%d" % (rng.choice(["", "-"]), rng.randrange(10 ** rng.randrange(1, 30)), rng.randrange(1000))).encode())
               for _ in range(100 if quick else 3000)]
+    # parse into a Variant that already holds a value (list / map: appended to; anything else: replaced)
+    into = []
+    into_docs = [b"[]", b"[1,2]", b"{}", b'{"a":1}', b'{"a":1,"b":[true],"a":null}', b"7", b'"x"', b"null", b"[1,", b'{"a"', b"x",
+                 b'[{"k":[]}]', b' [\n"\\u00e9"] ']
+    for _ in range(500 if quick else 20000):
+        init = gen_tree(rng, rng.choice([0, 1, 1, 2]))
+        if rng.random() < 0.5:
+            init = rng.choice([("[", [gen_tree(rng, 1) for _ in range(rng.choice([0, 1, 2, 3]))]),
+                               ("{", list({rng.choice([b"a", b"b", b"k", b""]): gen_tree(rng, 0) for _ in range(rng.choice([0, 1, 2, 3]))}.items()))])
+        doc = rng.choice(into_docs) if rng.random() < 0.5 else rng.choice(docs)[0]
+        if len(doc) < 4000:
+            into.append("parseinto " + dump(init) + " " + hx(doc))
+    into += ["parseinto [i1 00", "parseinto x 5b5d", "parseinto [i1] 5b5d", "parseinto {61:i1} " + hx(b'{"b":2,"a":3}')]
+    counts["parse_into"] = len(into)
+    lines += into
     lines += BAD_OPS
     counts["trees"] = len(lines)
     tree_h = group([l for l in lines if len(l) < MAXLINE], 4)
@@ -1031,7 +1072,7 @@ def nontrivial(h, out):
         elif k == "strip":
             if o != "-":
                 keys.append(k + o)
-        elif k in ("tostr", "rt") and o != "bad-op":
+        elif k in ("tostr", "rt", "parseinto") and o != "bad-op":
             keys.append(k + o)
     if not keys:
         return None
